@@ -61,6 +61,14 @@ func CheckOutputs(feats Features, ext map[string]string, t Transcript) []string 
 				add(i, "nz = %v, want the result of THIS schema's normalize (prefix %s)", m["nz"], want)
 			}
 		}
+		same("ea1", "ea2")
+		same("eb1", "eb2")
+		same("ec1", "ec2")
+		for _, g := range []string{"zglob", "zglob2"} {
+			if feats.Has(g) && !reflect.DeepEqual(m[g], "g:") {
+				add(i, "%s (enumerates the global object without having been passed any arg) = %v, want g:", g, m[g])
+			}
+		}
 		if feats.Has("probe") && !reflect.DeepEqual(m["probe"], float64(0)) {
 			add(i, "probe (reads the global 'discount' it was not passed) = %v, want 0", m["probe"])
 		}
